@@ -279,7 +279,8 @@ class CoordinateComponent(Component):
             # Some views, e.g. with lists of integer arrays, can give arbitrarily
             # complex (copied) subsets of arrays, so in this case we don't do any
             # optimization
-            if view is Ellipsis:
+            if view is Ellipsis or isinstance(view, np.ndarray):
+                # a single boolean mask or index array is applied at the end
                 optimize_view = False
             else:
                 for v in view:
